@@ -9,6 +9,7 @@ import YowsupVerif.Drv.Locks
 import YowsupVerif.Drv.Store
 import YowsupVerif.Drv.Media
 import YowsupVerif.Drv.Reg
+import YowsupVerif.Drv.Config
 open Yow Yow.Drv
 
 structure DrvState where
@@ -21,6 +22,7 @@ def step (s : DrvState) (line : String) : DrvState × String :=
   match (line.splitOn " ").filter (· ≠ "") with
   | "seg" :: rest => let r := segStep s.seg rest; ({ s with seg := r.1 }, r.2)
   | "coder" :: rest => (s, coderStep rest)
+  | "cfg" :: rest => (s, configStep rest)
   | "reg" :: rest => (s, regStep rest)
   | "media" :: rest => (s, mediaStep rest)
   | "store" :: rest => let r := storeStep s.store rest; ({ s with store := r.1 }, r.2)
